@@ -122,9 +122,9 @@ func (w *writer) num(x float64, cls int) dictArg {
 		asReal := false
 		switch cls {
 		case clsReal:
-			asReal = pick(4) == 0
+			asReal = pick(4) == 3
 		case clsNumber:
-			asReal = w.opt.RealForInts && pick(3) == 0
+			asReal = w.opt.RealForInts && pick(3) == 2
 		}
 		if !asReal {
 			lens := legalIntLens(int32(x))
@@ -144,10 +144,13 @@ func (w *writer) num(x float64, cls int) dictArg {
 	case 3:
 		sp.Digits = 9
 	}
+	if cls == clsNumber {
+		sp.Digits = 0 // an integer must keep all its digits
+	}
 	sp.Exp = pick(3)
-	sp.NoLeading = pick(2) == 0
-	sp.PadExp = pick(3) == 0
-	sp.TrailZero = pick(4) == 0
+	sp.NoLeading = pick(2) == 1
+	sp.PadExp = pick(3) == 2
+	sp.TrailZero = pick(4) == 3
 	return dictArg{fixed: EncodeRealText(FormatReal(x, sp))}
 }
 
@@ -216,7 +219,7 @@ func (w *writer) collect() {
 		// (with a predefined charset the glyph names implicitly carry their
 		// standard SIDs, so no second SID may be introduced for them)
 		customStd := w.opt.CustomStd && (f.IsCID || w.opt.CharsetFormat < 100)
-		if id, ok := std[s]; ok && !(customStd && w.opt.Pick(3) == 0) {
+		if id, ok := std[s]; ok && !(customStd && w.opt.Pick(3) == 2) {
 			w.sid[s] = id
 			continue
 		}
@@ -361,6 +364,18 @@ func (w *writer) run() ([]byte, string) {
 				encodingID = id
 			}
 		}
+		if encodingID < 0 && !contiguousEncoding(&f.Encoding) {
+			// formats 0 and 1 cannot express this vector; it must be one of
+			// the predefined encodings
+			for id := 0; id <= 1 && encodingID < 0; id++ {
+				if PredefinedEncoding(id, f.GlyphNames) == f.Encoding {
+					encodingID = id
+				}
+			}
+			if encodingID < 0 {
+				panic("refcffwalk: encoding is neither predefined nor of the form GIDs 1..m")
+			}
+		}
 		if encodingID < 0 {
 			encodingData = w.encodeEncoding(sids)
 		} else {
@@ -457,7 +472,7 @@ func (w *writer) run() ([]byte, string) {
 		fd := &f.FDs[i]
 		p := &fd.Private
 		var it []dictItem
-		if len(p.BlueValues) > 0 || (!omit && pick(2) == 0) {
+		if len(p.BlueValues) > 0 || (!omit && pick(2) == 1) {
 			it = append(it, dictItem{OpBlueValues, w.deltas(p.BlueValues)})
 		}
 		if len(p.OtherBlues) > 0 {
@@ -583,7 +598,7 @@ func (w *writer) run() ([]byte, string) {
 	}
 	if opt.Pad {
 		for _, s := range float {
-			if pick(3) == 0 {
+			if pick(3) == 2 {
 				s.pad = 1 + pick(5)
 			}
 		}
@@ -678,6 +693,22 @@ func (w *writer) run() ([]byte, string) {
 	return out, strings.Join(w.trace, " ")
 }
 
+// contiguousEncoding reports whether the encoded glyphs are exactly GIDs
+// 1..m for some m, the only shape encoding formats 0 and 1 can express.
+func contiguousEncoding(enc *[256]int) bool {
+	has := map[int]bool{}
+	maxGID := 0
+	for _, gid := range enc {
+		if gid != 0 {
+			has[gid] = true
+			if gid > maxGID {
+				maxGID = gid
+			}
+		}
+	}
+	return len(has) == maxGID
+}
+
 func (w *writer) permute(items []dictItem) {
 	if !w.opt.Shuffle {
 		return
@@ -719,7 +750,7 @@ func (w *writer) encodeCharset(vals []int) []byte {
 			j++
 		}
 		// optionally split a run although it could be longer
-		if j > i && w.opt.Pick(8) == 0 {
+		if j > i && w.opt.Pick(8) == 7 {
 			j = i + w.opt.Pick(j-i+1)
 		}
 		nLeft := j - i
@@ -793,7 +824,7 @@ func (w *writer) encodeEncoding(sids []int) []byte {
 			for j+1 <= maxGID && main[j+1] == main[j]+1 {
 				j++
 			}
-			if j > i && w.opt.Pick(8) == 0 {
+			if j > i && w.opt.Pick(8) == 7 {
 				j = i + w.opt.Pick(j-i+1)
 			}
 			out = append(out, byte(main[i]), byte(j-i))
@@ -843,7 +874,7 @@ func (w *writer) encodeFDSelect() []byte {
 	n := 0
 	for i, fd := range sel {
 		// a new range starts where the FD changes (or, rarely, anywhere)
-		if i == 0 || fd != sel[i-1] || w.opt.Pick(64) == 0 && len(sel) < 5000 {
+		if i == 0 || fd != sel[i-1] || w.opt.Pick(64) == 63 && len(sel) < 5000 {
 			out = append(out, byte(i>>8), byte(i), byte(fd))
 			n++
 		}
